@@ -56,6 +56,20 @@ CHECKS = {
         design_ref="DESIGN.md §4 C16",
         note="Unknowns range over {False, True} and {[], [1], [1, 2]}; probes capped at 40 events and spinning loops cut by a CPU timer (same verdict on both sides).",
     ),
+    "C03": dict(
+        technique="runtime post-condition monitor (ast.parse) on format_code, on every rule step inside the pipeline (H-rule) and on every pipeline rule alone; fault injection at the scheduler and direct-edit APIs; complete fault enumeration of format_file's write guard observed through an audit hook (open-for-write events) and file metadata",
+        category="fault_enumeration",
+        text="Valid inputs (construct zoo x positions incl. indented fragments, repository examples, standard-library files) go through format_code under 7 option vectors with every rule call inside checked (~100k steps per quick run) and through each of the 85 pipeline rules alone; sub() on generated pattern triples; replacements that would break the syntax are injected through _replace_nodes / alter_code / remove_nodes / fix / chain. The write guard is decided by enumerating all 120 combinations of {file content: valid, invalid, skip_file, no trailing newline, empty} x {text returned by the formatter: same, valid changed, invalid, whitespace-only change, empty, invalid extension} x safe x file name with format_code stubbed, plus real runs: a valid file must never become invalid, an unchanged file must not be opened for writing nor reported as changed.",
+        design_ref="DESIGN.md §4 C03",
+        note="Validity = ast.parse of CPython 3.12 (indented fragments after dedent); the write-guard enumeration is complete for the stated factor levels, the validity part is sampling.",
+    ),
+    "C04": dict(
+        technique="runtime monitor at the API boundary in isolated worker processes: exception capture (BaseException), CPU-time budget (RLIMIT-style timers, process time), non-whitespace hand-back check for invalid input, effect sanitizer",
+        category="exploration",
+        text="format_code is called on a zoo of 49 constructs covering Python 3.12 syntax in 9 positions (first, last, without trailing newline, nested in def/class, last in an if, indented fragment with spaces and tabs), pairs of constructs, 70 adversarial constant expressions in 16 condition templates, ~120 degenerate strings (empty, BOM, NUL, unterminated, deep nesting, long lines), 700 (6000) character-level mutants, repository examples and standard-library files, under 7 option vectors. Any exception, a result that is not a string, CPU time above max(20 s, 400 s/kB), a dead worker, an effect, or an invalid input not handed back modulo whitespace is a violation.",
+        design_ref="DESIGN.md §4 C04",
+        note="Bounded time is a CPU budget two orders of magnitude above the measured cost; wall-clock watchdogs only yield inconclusive.",
+    ),
 }
 
 NOT_YET = {}
